@@ -463,7 +463,7 @@ SUBS = [
         nontrivial_rule="input accepted by PSBT.parse",
         doc="quick: Hypothesis byte-level mutations of seed PSBTs; thorough: atheris coverage-guided campaign"),
     Sub("workflow_orders", check_flow, strategy=lambda tier: flow_cases(), stateful=True,
-        budget={"quick": 90, "thorough": 6000},
+        budget={"quick": 64, "thorough": 4000},
         required=["kind:" + k for k in KINDS] + ["enough_signers", "too_few_signers", "more_than_m_signers",
                                                  "unknown_pairs", "global_xpubs", "segwit_flag",
                                                  "combine_pair"],
